@@ -129,6 +129,8 @@ fn check_cli(c: char, l: &str, r: &str) -> Result<(), (String, String)> {
     let cfg = Config {
         cmd_buf: 64,
         hist_buf: 64,
+        // every other scalar is echoed through a sink that accepts only part of each write
+        short_writes: (c as u32) % 2 == 1,
         ..Config::default()
     };
     let (s, _) = Sess::<RawSet>::new(&cfg, None);
